@@ -1033,3 +1033,15 @@ func init() {
 		return UF("account_exists", SBool, c.T(2))
 	}
 }
+
+func init() {
+	theory["(github.com/tidwall/gjson.Result).Float"] = func(x *Exec, f *Frame, st *State, c *CallInfo) Val {
+		if t := c.T(0); t != nil {
+			return UF("gjson_float<"+t.Sort.Name+">", SReal, t)
+		}
+		return x.freshTerm("float", SReal)
+	}
+	theory["strconv.FormatFloat"] = func(x *Exec, f *Frame, st *State, c *CallInfo) Val {
+		return UF("format_float", SStr, c.T(0), c.T(1), c.T(2), c.T(3))
+	}
+}
